@@ -8,7 +8,7 @@ a data processing pipeline using python generators and the multiprocessing libra
 
 from .generatorpipeline import pipeline
 from .helper import isiterator
-from .streamfunctions import simplecache, observe, observe_time
+from .streamfunctions import simplecache, observe, observe_time, savestream, loadstream
 from . import accumulators  # noqa
 
 
